@@ -182,7 +182,7 @@ def seq_plans(tier):
                 ('top_S2_len4_lock', ['--prim', 'seq', '--S', 2, '--len', 4, '--top', 1, '--alpha', 'lock']),
                 ('top_S7_len2', ['--prim', 'seq', '--S', 7, '--len', 2, '--top', 1]),
                 ('low_S3_len2', ['--prim', 'seq', '--S', 3, '--len', 2, '--top', 0, '--base', 4096]),
-                ('random', ['--prim', 'seqrand', '--execs', 15000])]
+                ('random', ['--prim', 'seqrand', '--execs', 10000])]
     return [('top_S3_len3', ['--prim', 'seq', '--S', 3, '--len', 3, '--top', 1]),
             ('top_S3_len4_lock', ['--prim', 'seq', '--S', 3, '--len', 4, '--top', 1, '--alpha', 'lock']),
             ('top_S7_len2', ['--prim', 'seq', '--S', 7, '--len', 2, '--top', 1]),
@@ -287,7 +287,7 @@ def record_seq(ctx, h):
 
 def run_seq(ctx, allp, scopes, tol):
     total = sum(scopes.values())
-    par = 12
+    par = 8 if ctx.tier == 'quick' else 12
     chunk = max(5000, min(60000, total // par + 1))
     n, k, hits = judge_rows(ctx, allp, tol, 'all', chunk=chunk, par=par)
     os.unlink(allp)
@@ -298,7 +298,7 @@ def run_seq(ctx, allp, scopes, tol):
 # ------------------------------------------------------------------------------------------------ concurrent conformance
 def record_conc(ctx, h):
     t = ctx.tier
-    modes = [('dir', 18, 1), ('conc', 160, 4)] if t == 'quick' else [('dir', 45, 1), ('conc', 3000, 12)]
+    modes = [('dir', 18, 1), ('conc', 120, 3)] if t == 'quick' else [('dir', 45, 1), ('conc', 3000, 12)]
     rows, kinds = [], {}
     for prim, execs, batches in modes:
         got = 0
@@ -326,7 +326,7 @@ def run_conc(ctx, rows, tol):
     kf_all.update(JOPTS)
     ex = tracecheck.split_execs(rows)
     # executions used to tell which recorded findings were met: the directed arrival orders and the first random ones
-    ex2 = [e for e in ex if e[0].get('prim') == 'dir'] + [e for e in ex if e[0].get('prim') != 'dir'][:60 if ctx.tier == 'quick' else 600]
+    ex2 = [e for e in ex if e[0].get('prim') == 'dir'] + [e for e in ex if e[0].get('prim') != 'dir'][:30 if ctx.tier == 'quick' else 600]
     for e in ex:
         if e[0].get('prim') == 'conc' and len(ctx.samples) < 8:
             ctx.samples.append({'recorded_execution': e[:40]})
@@ -416,8 +416,15 @@ def replay(ctx, path):
         print(f'replayed {n} sequence(s): {k} accepted by the property, recorded findings {hits}')
     else:
         rows = vtlib.read_ndjson(path)
-        acc, rejs, n = tracecheck.validate(ctx, 'Trace_RangeLockA', 'Trace_RangeLockA.cfg', rows, extra_env={'KF_' + k: '1' for k in tol}, tagbase='replay')
+        kf_all = {'KF_' + k: '1' for k in tol}
+        acc, rejs, n = tracecheck.validate(ctx, 'Trace_RangeLockA', 'Trace_RangeLockA.cfg', rows, extra_env=kf_all, tagbase='replay')
         tracecheck.report(ctx, rejs, 'replay', name='replay')
+        bad = {id(rj['exec'][0]) for rj in rejs}
+        good = [e for e in tracecheck.split_execs(rows) if id(e[0]) not in bad]
+        for fid in sorted(tol):
+            hit = _first_rejected(ctx, good, {k: v for k, v in kf_all.items() if k != 'KF_' + fid}, f'replay_no{fid}') if good else None
+            if hit is not None:
+                ctx.known(fid, KNOWN_TEXT[fid] + ' (accepted only with the switch of this finding: ' + _brief(hit) + ')')
         print(f'replayed {n} execution(s): {acc} accepted, {len(rejs)} rejected')
     for fid, what in ctx.known_hits:
         print(f'KNOWN-FINDING: property={ctx.pid} {fid}: {what}')
